@@ -168,3 +168,62 @@ pub fn run_io(bin: &str, args: &[String], stdin_file: Option<std::fs::File>, sin
 	};
 	Run { status, stdout: t_out.map(|t| t.join().unwrap_or_default()).unwrap_or_default(), stderr: t_err.join().unwrap_or_default() }
 }
+
+/// Runs `bin args…` with no standard input, standard output discarded, and
+/// standard ERROR connected to `sink`; returns only the wait status.
+pub fn run_stderr_sink(bin: &str, args: &[String], sink: Sink, timeout: Duration) -> Status {
+	let mut cmd = Command::new(bin);
+	cmd.args(args).stdin(Stdio::null()).stdout(Stdio::null());
+	match sink {
+		Sink::Pipe | Sink::ClosedPipe => {
+			cmd.stderr(Stdio::piped());
+		}
+		Sink::DevFull => match std::fs::OpenOptions::new().write(true).open("/dev/full") {
+			Ok(f) => {
+				cmd.stderr(Stdio::from(f));
+			}
+			Err(e) => return Status::SpawnError(format!("/dev/full: {e}")),
+		},
+	}
+	let mut child = match cmd.spawn() {
+		Ok(c) => c,
+		Err(e) => return Status::SpawnError(e.to_string()),
+	};
+	let se = child.stderr.take();
+	let reader = match (se, &sink) {
+		(Some(mut se), Sink::Pipe) => Some(std::thread::spawn(move || {
+			let mut v = vec![];
+			let _ = se.read_to_end(&mut v);
+		})),
+		(Some(se), _) => {
+			drop(se);
+			None
+		}
+		_ => None,
+	};
+	let start = Instant::now();
+	let status = loop {
+		match child.try_wait() {
+			Ok(Some(st)) => {
+				break match (st.code(), st.signal()) {
+					(Some(c), _) => Status::Exit(c),
+					(None, Some(s)) => Status::Signal(s),
+					_ => Status::Exit(-1),
+				}
+			}
+			Ok(None) => {
+				if start.elapsed() > timeout {
+					let _ = child.kill();
+					let _ = child.wait();
+					break Status::Timeout;
+				}
+				std::thread::sleep(Duration::from_millis(1));
+			}
+			Err(e) => break Status::SpawnError(e.to_string()),
+		}
+	};
+	if let Some(r) = reader {
+		let _ = r.join();
+	}
+	status
+}
